@@ -23,9 +23,11 @@ indexed.go / storage.go / bolt.go:
   * `history_refines_map`, `get_returns_last_stored`, `index_bijection`, `unique_indexes_stay_unique`
                                   the same for every history; uniqueness of every unique index is an invariant;
   * `pagination_exact`, `nolimit_exact`   `DoListFunc` = filter ▸ drop offset ▸ take limit.
-  * `bucket_stays_sorted`, `prefix_scan_exact`, `composite_key_order`, `index_listing`, `list_is_page_of_listing`
+  * `bucket_stays_sorted`, `prefix_scan_exact`, `composite_key_order(_exact)`, `index_listing`, `list_is_page_of_listing`
                                   every index lists exactly the stored objects, each once, ascending by (value, id),
-                                  and `List`/`ReverseList` with any pattern/offset/limit is the page of that listing;
+                                  and `List`/`ReverseList` with any pattern/offset/limit is the page of that listing —
+                                  for every index outside the EXACT predicate of finding `index-order-separator`
+                                  (`lowSepDev`, the one the driver's KNOWN clause uses);
   * `rebuild_identity`            `Rebuild` leaves every reachable bucket exactly as it was.
 Nothing is left stated-only.
 -/
@@ -275,10 +277,6 @@ example :
 
 /-! ### Listings: exactly the stored objects, each once, in index order; pages are slices -/
 
-/-- The objects a history may store for the ORDER theorems: well-formed, and the values of non-unique indexes have
-no byte ≤ '/' (outside this, finding `index-order-separator`). -/
-def OrderWF (c : Cfg) (o : Obj) : Prop := c.wfObj o = true ∧ ∀ i ∈ c.indexes, Index.wfObj i o = true
-
 /-- **The bucket stays sorted** under every API call (any configuration, arguments, fault). -/
 theorem bucket_stays_sorted (c : Cfg) (ops : List Op) : Sorted (run c ops) := run_sorted c ops
 
@@ -290,18 +288,41 @@ theorem prefix_scan_exact (kv : KV) (hs : Sorted kv) (p : Str) :
 theorem composite_key_order (va vb a b : Str) (ha : SepSafe va = true) (hb : SepSafe vb = true) :
     (va ++ '/' :: a < vb ++ '/' :: b) ↔ (va < vb ∨ (va = vb ∧ a < b)) := composite_lt_iff va vb a b ha hb
 
+/-- … and, sharper, whenever neither value is a proper prefix of the other followed by a byte ≤ '/'
+(`lowSepPair`, the exact predicate of finding `index-order-separator`): e.g. values of EQUAL LENGTH such as the
+RFC 3339 dates of the replay service's date indexes, although they contain '-' (which sorts below '/'). -/
+theorem composite_key_order_exact (va vb a b : Str) (h1 : lowSepPair va vb = false) (h2 : lowSepPair vb va = false) :
+    (va ++ '/' :: a < vb ++ '/' :: b) ↔ (va < vb ∨ (va = vb ∧ a < b)) := composite_lt_iff_compat va vb a b h1 h2
+
+/-- Conversely, INSIDE the predicate the order is always broken (whatever the ids): when `vb` continues `va` with a
+byte below '/', the entry of the larger value `vb` sorts before the entry of `va`. -/
+theorem composite_key_order_broken_on_low_separator (va rest a b : Str) (ch : Char) (hch : ch < '/') :
+    va < va ++ ch :: rest ∧ (va ++ ch :: rest) ++ '/' :: b < va ++ '/' :: a := by
+  constructor
+  · have := (append_lt_append_left va [] (ch :: rest)).mpr (List.nil_lt_cons _ _)
+    simpa using this
+  · rw [List.append_assoc, append_lt_append_left, List.cons_append, List.cons_lt_cons_iff]
+    exact Or.inl hch
+
+/-- Sufficient for an index to be outside the deviation: it is unique, or its stored values have no byte ≤ '/'. -/
+theorem sepSafe_values_outside_deviation (i : Index) (m : Abs) (h : ∀ o ∈ m, Index.wfObj i o = true) :
+    lowSepDev i m = false := lowSepDev_of_sepSafe h
+
 /-- **Every index lists exactly the stored objects, each once, in index order** — after every history of create /
-put / replace / delete / rebuild / reopen (faults anywhere): the unbounded `List(index, "", 0, -1)` succeeds and its answer is
-strictly ascending by (index value, id) and has exactly the objects of the abstract map as members. -/
+put / replace / delete / rebuild / reopen (faults anywhere) on any well-formed configuration, for every index whose
+stored values are outside the deviation `index-order-separator` (`lowSepDev`: the decidable predicate the driver
+uses for the KNOWN clause — so the theorem covers exactly the complement of the finding): the unbounded
+`List(index, "", 0, -1)` succeeds and its answer is strictly ascending by (index value, id) and has exactly the
+objects of the abstract map as members. -/
 theorem index_listing (c : Cfg) (hc : c.wf = true) (ops : List Op)
-    (hops : ∀ op ∈ ops, ∀ o, op.obj? = some o → OrderWF c o) :
+    (hops : ∀ op ∈ ops, ∀ o, op.obj? = some o → c.wfObj o = true) :
     ∃ m, absRun c ops [] [] = some m ∧
-      ∀ i ∈ c.indexes, ∃ l, list c (run c ops) i.name [] 0 (-1) false = .ok l ∧ IsListing i.sel m l := by
-  have hk : KeysOK c (OrderWF c) := (keysOK_of_wf c hc).mono (fun o ho => ho.1)
-  obtain ⟨m, hr, hi⟩ := history_refines_all hc (fun o ho => ho.1) hk ops [] [] (inv_empty c _) List.Pairwise.nil hops
+      ∀ i ∈ c.indexes, lowSepDev i m = false →
+        ∃ l, list c (run c ops) i.name [] 0 (-1) false = .ok l ∧ IsListing i.sel m l := by
+  obtain ⟨m, hr, hi⟩ := history_refines_map c hc ops hops
   refine ⟨m, hr, ?_⟩
-  intro i hi'
-  obtain ⟨l, hres, hlist⟩ := listing_of_inv hc (fun o ho => ho.1) (fun o ho => ho.2) hi (run_sorted c ops) i hi'
+  intro i hi' hdev
+  obtain ⟨l, hres, hlist⟩ := listing_of_inv hc (fun _ h => h) hi (run_sorted c ops) i hi' hdev
   refine ⟨l, ?_, hlist⟩
   have := list_page_of_resolves hres [] 0 (-1) false
   have e : specPage (if false = true then l.reverse else l) (matchFn []) ((0 : Nat) : Int) (-1) = l := by
@@ -310,20 +331,19 @@ theorem index_listing (c : Cfg) (hc : c.wf = true) (ops : List Op)
   exact this
 
 /-- **Pagination with offset/limit and glob patterns returns the corresponding slice of that list** — after every
-such history, for every index, pattern, offset, limit (negative = no limit) and direction: `List`/`ReverseList`
+such history, for every such index, pattern, offset, limit (negative = no limit) and direction: `List`/`ReverseList`
 answers exactly `specPage` of THE listing `l` (filter by the pattern on the id ▸ drop offset ▸ take limit). -/
 theorem list_is_page_of_listing (c : Cfg) (hc : c.wf = true) (ops : List Op)
-    (hops : ∀ op ∈ ops, ∀ o, op.obj? = some o → OrderWF c o) :
+    (hops : ∀ op ∈ ops, ∀ o, op.obj? = some o → c.wfObj o = true) :
     ∃ m, absRun c ops [] [] = some m ∧
-      ∀ i ∈ c.indexes, ∃ l, IsListing i.sel m l ∧
+      ∀ i ∈ c.indexes, lowSepDev i m = false → ∃ l, IsListing i.sel m l ∧
         ∀ (pat : Str) (off : Nat) (lim : Int) (rev : Bool),
           list c (run c ops) i.name pat (off : Int) lim rev
             = .ok (specPage (if rev then l.reverse else l) (matchFn pat) (off : Int) lim) := by
-  have hk : KeysOK c (OrderWF c) := (keysOK_of_wf c hc).mono (fun o ho => ho.1)
-  obtain ⟨m, hr, hi⟩ := history_refines_all hc (fun o ho => ho.1) hk ops [] [] (inv_empty c _) List.Pairwise.nil hops
+  obtain ⟨m, hr, hi⟩ := history_refines_map c hc ops hops
   refine ⟨m, hr, ?_⟩
-  intro i hi'
-  obtain ⟨l, hres, hlist⟩ := listing_of_inv hc (fun o ho => ho.1) (fun o ho => ho.2) hi (run_sorted c ops) i hi'
+  intro i hi' hdev
+  obtain ⟨l, hres, hlist⟩ := listing_of_inv hc (fun _ h => h) hi (run_sorted c ops) i hi' hdev
   exact ⟨l, hlist, fun pat off lim rev => list_page_of_resolves hres pat off lim rev⟩
 
 /-- Non-vacuity: ids that are prefixes of each other, two groups, a replace that moves an object; the listing of
@@ -334,11 +354,25 @@ example :
       .create ⟨"a".toList, "h".toList, [], "2".toList⟩ .none,
       .create ⟨"b".toList, "g".toList, [], "3".toList⟩ .none,
       .replace ⟨"a".toList, "g".toList, [], "4".toList⟩ .none]
-    (ops.all (fun op => match op.obj? with
-        | some o => c.wfObj o && c.indexes.all (fun i => Index.wfObj i o) | none => true)) = true ∧
+    (ops.all (fun op => match op.obj? with | some o => c.wfObj o | none => true)) = true ∧
+    (match absRun c ops [] [] with | some m => c.indexes.all (fun i => !lowSepDev i m) | none => false) = true ∧
     answers (list c (run c ops) "grp".toList [] 0 (-1) false)
       [⟨"a".toList, "g".toList, [], "4".toList⟩, ⟨"ab".toList, "g".toList, [], "1".toList⟩,
        ⟨"b".toList, "g".toList, [], "3".toList⟩] = true := by decide
+
+/-- Non-vacuity on the only kind of non-unique index kapacitor configures (replay service: RFC 3339 dates, equal
+length, with '-' and ':' that sort below '/' resp. above): outside the deviation, listed by (date, id). -/
+example :
+    let c : Cfg := { pfx := "recordings".toList, indexes := [⟨"id".toList, true, .id⟩, ⟨"date".toList, false, .grp⟩] }
+    let ops : List Op := [.create ⟨"r2".toList, "2017-01-02T00:00:00Z".toList, [], "1".toList⟩ .none,
+      .create ⟨"r1".toList, "2017-01-02T00:00:00Z".toList, [], "2".toList⟩ .none,
+      .create ⟨"r3".toList, "2017-01-01T10:00:00Z".toList, [], "3".toList⟩ .none]
+    (ops.all (fun op => match op.obj? with | some o => c.wfObj o | none => true)) = true ∧
+    (match absRun c ops [] [] with | some m => c.indexes.all (fun i => !lowSepDev i m) | none => false) = true ∧
+    answers (list c (run c ops) "date".toList [] 0 (-1) false)
+      [⟨"r3".toList, "2017-01-01T10:00:00Z".toList, [], "3".toList⟩,
+       ⟨"r1".toList, "2017-01-02T00:00:00Z".toList, [], "2".toList⟩,
+       ⟨"r2".toList, "2017-01-02T00:00:00Z".toList, [], "1".toList⟩] = true := by decide
 
 /-! ### Rebuild and reopen -/
 
